@@ -158,6 +158,11 @@ def specs(tier):
         pre = ["op0 >= 1", "op0 <= 3", "f0 == 0"] if tier == "quick" else ["op0 <= 3"]
         S.append(dict(name="history-%s" % kind, module="checks.c11", function="history", kwargs=dict(kind=kind, length=L), inputs=inputs, pre=pre,
                       key="save/load history"))
+    # the periodic model-saving callback saves the same state / metadata object repeatedly (harness shared with C17)
+    sv_in = dict(start=("int", 0, 2), epochs=("int", 1, 3), period=("int", 1, 2), stop_at=("int", 0, 0))
+    for kind, md in (("complex", "dict"), ("complex", "callable"), ("mixed", "callable"), ("positive", "dict")):
+        S.append(dict(name="modelsaver-%s-%s" % (kind, md), module="checks.c17", function="saver", kwargs=dict(kind=kind, metadata=md, metadata_only=False, save_initial=True),
+                      inputs=sv_in, key="ModelSaver"))
     S.append(dict(name="twin-stale-record", module="checks.c11", function="history", kwargs=dict(kind="positive", length=2, twin=True), expect_fail=True,
                   inputs=dict(op0=("int", 1, 1), f0=("int", 0, 0), op1=("int", 2, 2), f1=("int", 0, 0))))
     return S
